@@ -221,3 +221,26 @@ Proof.
   unfold read_at. destruct (in_bounds b off len); [|discriminate].
   intros E; injection E as <- _. unfold preread. apply load_pages_disk.
 Qed.
+
+(** a read issued after another read returns what it returns alone, and leaves the same view:
+    by induction any interleaving of the atomic ReadAt steps of concurrent fetches gives each
+    fetch the bytes it would have read alone *)
+Theorem read_after_read b o1 l1 o2 l2 b1 d1 : fb_inv b -> 0 < l1 -> 0 < l2 ->
+  read_at b o1 l1 = IoOk (b1, d1) ->
+  match read_at b o2 l2, read_at b1 o2 l2 with
+  | IoOk (_, d2), IoOk (_, d2') => d2' = d2
+  | IoErr, IoErr => True
+  | _, _ => False
+  end.
+Proof.
+  intros Hinv H1 H2 E1.
+  pose proof (read_at_spec b o1 l1 Hinv H1) as S1. rewrite E1 in S1.
+  destruct S1 as (Hinv1 & Hd1 & _ & Hv1 & _).
+  assert (Hsz : fb_size b1 = fb_size b) by (unfold fb_size; rewrite Hd1; reflexivity).
+  pose proof (read_at_spec b o2 l2 Hinv H2) as S2. pose proof (read_at_spec b1 o2 l2 Hinv1 H2) as S2'.
+  unfold read_at in *. unfold in_bounds in *. rewrite Hsz in *.
+  destruct ((0 <=? o2) && (o2 + l2 <=? fb_size b)) eqn:Eb; [|exact I].
+  destruct S2 as (_ & _ & _ & _ & ->). destruct S2' as (_ & _ & _ & _ & ->).
+  apply map_ext_in. intros k Hk. apply in_seq in Hk. apply Hv1.
+  apply andb_true_iff in Eb. destruct Eb as [Ea Ec]. apply Z.leb_le in Ea, Ec. lia.
+Qed.
